@@ -344,6 +344,7 @@ pub fn run_seq(trace: &Trace, skip: &BTreeSet<usize>, opts: &SeqOpts) -> SeqOutc
 
         // --- execute ----------------------------------------------------------------
         crate::types::set_in_op(true);
+        let value_cb_before = reg.injected();
         let res = catch_unwind(AssertUnwindSafe(|| exec(&mut sut, op, &reg, &clock)));
         crate::types::set_in_op(false);
         let st = hooks.end_op();
@@ -352,9 +353,21 @@ pub fn run_seq(trace: &Trace, skip: &BTreeSet<usize>, opts: &SeqOpts) -> SeqOutc
             Err(p) => {
                 let msg = payload_str(&p);
                 if msg.contains(INJECTED_PANIC) {
-                    relaxed = true;
                     rep.fault("callback_panic", 1);
                     pol.enabled = false;
+                    match op {
+                        // An insert into the concurrent cache that unwound from the weigher
+                        // (called before the map is touched) or from `V::clone` (called inside
+                        // the map closure, on the caller's thread, no maintenance involved):
+                        // the cache stays fully usable and every oracle stays on; only this
+                        // key is judged leniently (nothing / the failed value / what the
+                        // model holds -- never an older value) until it is written again.
+                        Op::Insert { k, vid, .. } if !unsync && !relaxed && reg.injected() > value_cb_before => {
+                            model.taint(*k, *vid);
+                            rep.flag("panicked_insert_judged", 1);
+                        }
+                        _ => relaxed = true,
+                    }
                 } else if relaxed {
                     // After one of its own callbacks has panicked inside a call, the caller
                     // holds a cache in an unspecified (but memory-safe) state -- a poisoned
